@@ -360,6 +360,8 @@ func runScenario(sc scenario) func(t *testing.T, x *gate.Exec) {
 					if full >= 1 {
 						add(fmt.Sprintf("%s <- %d entries", p.Key, full), base, func() { env.Answer(p, entriesAns{n: int(full)}) })
 						if faults > 0 {
+							// an empty 200 answer (a front end momentarily behind the STH): nothing delivered, asked again
+							add(fmt.Sprintf("%s <- 0 entries", p.Key), base+1, func() { faults--; env.Answer(p, entriesAns{n: 0}) })
 							for n := int64(1); n < full; n++ {
 								add(fmt.Sprintf("%s <- short %d", p.Key, n), base+1, func() { faults--; env.Answer(p, entriesAns{n: int(n)}) })
 							}
